@@ -36,8 +36,8 @@ ASSUMPTIONS = [
     'zero with a length unit may lose the unit (stated by the property)',
 ]
 MIN_EVENTS = {
-    'quick': {'oracle.reassign': 300, 'oracle.number': 40000, 'oracle.hash': 20000, 'oracle.color': 2000, 'oracle.string': 3000, 'contract.do_css_Value': 40000, 'contract._hash': 10000},
-    'thorough': {'oracle.reassign': 300, 'oracle.number': 800000, 'oracle.hash': 300000, 'oracle.color': 30000, 'oracle.string': 60000, 'contract.do_css_Value': 800000, 'contract._hash': 100000},
+    'quick': {'oracle.nested': 500, 'oracle.reassign': 300, 'oracle.number': 40000, 'oracle.hash': 20000, 'oracle.color': 2000, 'oracle.string': 3000, 'contract.do_css_Value': 40000, 'contract._hash': 10000},
+    'thorough': {'oracle.nested': 500, 'oracle.reassign': 300, 'oracle.number': 800000, 'oracle.hash': 300000, 'oracle.color': 30000, 'oracle.string': 60000, 'contract.do_css_Value': 800000, 'contract._hash': 100000},
 }
 
 UNITS = ['', '%', 'px', 'em', 'ex', 'cm', 'mm', 'in', 'pt', 'pc', 'deg', 's', 'ms', 'Hz', 'PX', 'x']
@@ -408,13 +408,24 @@ CONTENT_CHARS = list('abcXYZ019 .,;:!?#$%&*+-/<=>@[]^_`{|}~()') + ['"', "'", '\\
 
 def css_string(content, quote, rng):
     out = []
-    for ch in content:
+    for idx, ch in enumerate(content):
+        nxt = content[idx + 1 : idx + 2]
         if ch == quote or ch == '\\':
             out.append('\\' + ch)
         elif ch in '\n\r\f':
             out.append('\\%x ' % ord(ch))
         elif ch != '\t' and rng.random() < 0.04 and ch not in '0123456789abcdefABCDEF' and ch not in '\n\r\f':
             out.append('\\' + ch)  # needless simple escape of an ordinary character
+        elif rng.random() < 0.06:
+            # needless hex escape in every digit count: six digits need no terminator, but one white space after any escape belongs to it
+            k = rng.choice([0, 0, 4, 6])
+            hx = ('%x' % ord(ch)).rjust(k, '0') if k else '%x' % ord(ch)
+            if len(hx) > 6:
+                out.append(ch)
+            else:
+                # (a six-digit escape may be followed directly by the next character - unless that is white space, which would be taken for the terminator)
+                bare_ok = len(hx) == 6 and nxt not in ('', ' ', '\t', '\n', '\r', '\f')
+                out.append('\\' + rng.choice([hx, hx.upper()]) + rng.choice([' ', '', '\n', ' '] if bare_ok else [' ', ' ', '\t', '\n']))
         else:
             out.append(ch)
     return quote + ''.join(out) + quote
@@ -515,6 +526,59 @@ def stream_lists(ctx, cssutils):
         ctx.seen('L' + src)
 
 
+NEST_ARGS = ['1px', '0.50px', '+.5em', '-50%', 'a', '"s, t"', '#abc', 'url(x)', 'rgb(1, 2, 3)', 'f(1)', 'max(0.50px, 1em)', 'attr(x)', 'counter(c, disc)', 'calc(1px + 2px)',
+             'translate(-50%, +.5em)', 'linear-gradient(red, #00f 50%)', 'U+26', '1.5', '0']  # fmt: skip
+NEST_FORMS = ['var(v, {a})', 'f({a}, {b})', 'g({a} {b})', 'var(v, var(w, {a}))', 'h(k({a}), {b})', 'calc(var(v, {a}) * 2)', '{a} var(v, {b})', 'var(v, {a}) {b}', 'f(var(v, {a}))',
+              'var(V, {a})', 'VAR(v,{a})', 'var( v , {a} )']  # fmt: skip
+
+
+def leaves(x, out):
+    """the atoms of a projection, in order"""
+    if isinstance(x, (list, tuple)):
+        if x and isinstance(x[0], str) and x[0] in ('num', 'ident', 'string', 'url', 'color', 'hash', 'urange'):
+            out.append(tuple(str(i) for i in x))
+            return out
+        for i in x:
+            leaves(i, out)
+    return out
+
+
+def stream_nested(ctx, cssutils):
+    """values inside functions and var() fallbacks: every atom of every argument is still there, in order, and the written form says the same"""
+    from models import projection as P
+
+    cases = [(f, a, b) for f in NEST_FORMS for a in NEST_ARGS for b in NEST_ARGS[:6]]
+    for i, (form, a, b) in ctx.share(cases):
+        if '{b}' not in form and b != NEST_ARGS[0]:
+            continue
+        src = form.format(a=a, b=b)
+        ctx.count('evaluations')
+        ctx.count('oracle.nested')
+        case = {'kind': 'nested', 'src': src, 'args': [a, b]}
+        try:
+            core.canonical_state(cssutils)
+            pv = parse_value(cssutils, src)
+            if not pv.wellformed:
+                ctx.count('nested.not-wellformed')
+                continue
+            got = leaves(P.p_propertyvalue(pv), [])
+            want = []
+            for arg in ([a, b] if '{b}' in form else [a]):
+                want.extend(leaves(P.p_propertyvalue(parse_value(cssutils, arg)), []))
+            if 'calc(var' in form:
+                want.append(('num', '2', ''))
+            out = pv.cssText
+            back = leaves(P.p_propertyvalue(parse_value(cssutils, out)), [])
+        except Exception as e:
+            ctx.violation('nested.exception', case, {'tb': core.short_tb(e)}, site=core.raise_site(e))
+            continue
+        if got != want:
+            ctx.violation('nested.atoms', case, {'got': got, 'want': want})
+        elif back != got:
+            ctx.violation('nested.roundtrip', case, {'out': out, 'got': got, 'after_reparse': back})
+        ctx.seen('N' + form + a)
+
+
 REASSIGN = ['18px', '50%', '1.5', '0', '-2em', '+3', '#abc', 'red', 'rgb(1, 2, 3)', 'url(a.png)', '"s"', 'auto', 'calc(1px + 2px)', '0.5em', '100', '10.50%', 'hsl(120, 50%, 50%)', 'url("b c.png")']
 
 
@@ -564,6 +628,7 @@ def run_worker(ctx):
         stream_colors(ctx, cssutils)
         stream_strings(ctx, cssutils)
         stream_lists(ctx, cssutils)
+        stream_nested(ctx, cssutils)
     finally:
         con.remove()
 
